@@ -30,6 +30,18 @@ pub enum M<'a> {
     Fail { client: u32, seq: u32 },
     #[serde(rename = "t.Sub")]
     Sub { client: u32, seq: u32 },
+    /// answered with a reply that cannot be encoded
+    #[serde(rename = "t.Poison")]
+    Poison { client: u32, seq: u32 },
+}
+
+/// A value whose encoding always fails (a path that is not valid UTF-8, a map with a key JSON cannot spell ...).
+#[derive(Debug)]
+pub struct Unencodable;
+impl Serialize for Unencodable {
+    fn serialize<S: serde::Serializer>(&self, _: S) -> Result<S::Ok, S::Error> {
+        Err(serde::ser::Error::custom("this value has no encoding"))
+    }
 }
 
 #[derive(Debug, Serialize)]
@@ -37,6 +49,8 @@ pub struct EchoReply<'s> {
     pub client: u32,
     pub seq: u32,
     pub payload: &'s str,
+    #[serde(skip_serializing_if = "Option::is_none")]
+    pub attachment: Option<Unencodable>,
 }
 
 #[derive(Debug, Serialize, Clone)]
@@ -57,6 +71,9 @@ pub enum Kind {
     Echo,
     Fail,
     Sub,
+    /// the service decides on a reply that cannot be encoded: the call cannot be answered. Whatever the server does
+    /// then (zlink gives the connection up), no later answer may take this call's place.
+    Poison,
 }
 
 /// A call as the harness scripts it.
@@ -75,6 +92,7 @@ impl CallSpec {
             Kind::Echo => M::Echo { client, seq: self.seq, payload: &self.payload },
             Kind::Fail => M::Fail { client, seq: self.seq },
             Kind::Sub => M::Sub { client, seq: self.seq },
+            Kind::Poison => M::Poison { client, seq: self.seq },
         };
         let c = Call::new(m).set_oneway(self.oneway).set_more(self.more);
         let mut b = serde_json::to_vec(&c).unwrap();
@@ -88,6 +106,7 @@ impl CallSpec {
                 Kind::Echo => "echo",
                 Kind::Fail => "fail",
                 Kind::Sub => "sub",
+                Kind::Poison => "poison",
             },
             if self.oneway { "/oneway" } else { "" },
             if self.more { "/more" } else { "" },
@@ -425,6 +444,7 @@ impl Service for Svc {
             M::Echo { client, seq, .. } => (*client, *seq, Kind::Echo),
             M::Fail { client, seq } => (*client, *seq, Kind::Fail),
             M::Sub { client, seq } => (*client, *seq, Kind::Sub),
+            M::Poison { client, seq } => (*client, *seq, Kind::Poison),
         };
         {
             let mut sh = self.sh.borrow_mut();
@@ -448,7 +468,11 @@ impl Service for Svc {
             M::Echo { client, seq, payload } => {
                 self.last.clear();
                 self.last.push_str(payload);
-                MethodReply::Single(Some(EchoReply { client: *client, seq: *seq, payload: &self.last }))
+                MethodReply::Single(Some(EchoReply { client: *client, seq: *seq, payload: &self.last, attachment: None }))
+            }
+            M::Poison { client, seq } => {
+                self.last.clear();
+                MethodReply::Single(Some(EchoReply { client: *client, seq: *seq, payload: &self.last, attachment: Some(Unencodable) }))
             }
             M::Fail { client, seq } => MethodReply::Error(E::Failed { client: *client, seq: *seq }),
             M::Sub { client, seq } => {
@@ -770,6 +794,11 @@ pub fn expected_frames(
                     out.push(json!({"error": "t.Failed", "parameters": {"client": client, "seq": c.seq}}));
                 }
             }
+            Kind::Poison => {
+                if !c.oneway {
+                    out.push(unanswerable());
+                }
+            }
             Kind::Sub => {
                 if c.oneway {
                     continue;
@@ -789,6 +818,38 @@ pub fn expected_frames(
         }
     }
     (out, false)
+}
+
+/// Place holder in a list of owed answers: the service decided on a reply that cannot be encoded.
+pub fn unanswerable() -> Value {
+    json!({"__unanswerable__": true})
+}
+
+/// Do the frames a connection got match what it is owed? `exact`: everything owed must be there (otherwise a prefix
+/// will do). At the place of an unanswerable call the connection either ends (the server gave it up: nothing more
+/// may follow) or carries an error frame of the server's own; a later answer must never move up into that place.
+pub fn answers_match(actual: &[Value], expected: &[Value], exact: bool) -> bool {
+    let mut ai = 0;
+    for e in expected {
+        if *e == unanswerable() {
+            if ai == actual.len() {
+                return true;
+            }
+            if actual[ai].get("error").is_some() && !expected.contains(&actual[ai]) {
+                ai += 1;
+                continue;
+            }
+            return false;
+        }
+        if ai == actual.len() {
+            return !exact;
+        }
+        if actual[ai] != *e {
+            return false;
+        }
+        ai += 1;
+    }
+    ai == actual.len()
 }
 
 /// `continues: false` and an absent `continues` are the same answer.
@@ -1004,7 +1065,7 @@ impl Scenario {
         json!({
             "monitor": monitor,
             "conns": self.conns.iter().map(|c| json!({
-                "calls": c.calls.iter().map(|k| json!([match k.kind { Kind::Echo => "echo", Kind::Fail => "fail", Kind::Sub => "sub" }, k.seq, k.oneway, k.more, k.payload])).collect::<Vec<_>>(),
+                "calls": c.calls.iter().map(|k| json!([match k.kind { Kind::Echo => "echo", Kind::Fail => "fail", Kind::Sub => "sub", Kind::Poison => "poison" }, k.seq, k.oneway, k.more, k.payload])).collect::<Vec<_>>(),
                 "raw": c.raw.as_ref().map(|r| hexs(r)),
                 "raw_text": c.raw.as_ref().map(|r| vnet::json::show(r)),
                 "cuts": c.cuts, "fail_write_at": c.fail_write_at, "wpp": c.write_pending_polls, "faulty": c.faulty, "rek": c.read_err_kind, "wek": c.write_err_kind, "stray": c.stray,
@@ -1021,7 +1082,7 @@ impl Scenario {
         Scenario {
             conns: v["conns"].as_array().unwrap().iter().map(|c| ConnScn {
                 calls: c["calls"].as_array().unwrap().iter().map(|k| CallSpec {
-                    kind: match k[0].as_str().unwrap() { "echo" => Kind::Echo, "fail" => Kind::Fail, _ => Kind::Sub },
+                    kind: match k[0].as_str().unwrap() { "echo" => Kind::Echo, "fail" => Kind::Fail, "poison" => Kind::Poison, _ => Kind::Sub },
                     seq: k[1].as_u64().unwrap() as u32,
                     oneway: k[2].as_bool().unwrap(),
                     more: k[3].as_bool().unwrap(),
@@ -1233,12 +1294,12 @@ pub fn check_reference(prop: &str, scn: &Scenario, out: &WorldOut, stats: &mut B
         let actual_n: Vec<Value> = actual.iter().cloned().map(normalize).collect();
         expected = expected.into_iter().map(normalize).collect();
         if on_boundary {
-            if actual_n != expected {
+            if !answers_match(&actual_n, &expected, true) {
                 let sig = classify(prop, i, scn, &actual_n, &expected);
                 v.push((sig, format!("conn{i} final output {} ; expected {}", Value::Array(actual_n.clone()), Value::Array(expected.clone()))));
                 continue;
             }
-        } else if !(actual_n.len() <= expected.len() && actual_n[..] == expected[..actual_n.len()]) {
+        } else if !answers_match(&actual_n, &expected, false) {
             let sig = classify(prop, i, scn, &actual_n, &expected);
             v.push((sig, format!("conn{i} final output {} is not a prefix of {}", Value::Array(actual_n.clone()), Value::Array(expected.clone()))));
             continue;
@@ -1267,12 +1328,12 @@ pub fn check_reference(prop: &str, scn: &Scenario, out: &WorldOut, stats: &mut B
             let prod = produced_until(&out.applied, cp.tick);
             let (exp, _) = if cp.released[i] { expected_frames(client, &c.calls[..complete.min(c.calls.len())], &prod) } else { (Vec::new(), false) };
             let exp: Vec<Value> = exp.into_iter().map(normalize).collect();
-            let is_prefix = at.len() <= exp.len() && at[..] == exp[..at.len()];
+            let is_prefix = answers_match(&at, &exp, false);
             if !is_prefix {
                 v.push((format!("{prop}/output-at-quiescent-point-is-not-a-prefix-of-what-is-owed"), format!("conn{i} at tick {} (step {}): output {} ; owed so far {}", cp.tick, cp.step, Value::Array(at), Value::Array(exp))));
                 break;
             }
-            if boundary && at.len() != exp.len() && !(closed_on_stray && cp.dropped[i]) {
+            if boundary && !answers_match(&at, &exp, true) && !(closed_on_stray && cp.dropped[i]) {
                 v.push((format!("{prop}/complete-call-left-unanswered-at-quiescent-point"), format!("conn{i} at tick {} (step {}): output {} ; owed so far {}", cp.tick, cp.step, Value::Array(at), Value::Array(exp))));
                 break;
             }
@@ -1288,7 +1349,19 @@ pub fn check_reference(prop: &str, scn: &Scenario, out: &WorldOut, stats: &mut B
                 break;
             }
         }
-        let ok = if on_boundary { seen == want } else { seen.len() <= want.len() && seen[..] == want[..seen.len()] };
+        // (behind a call that could not be answered the connection may have been given up: the calls behind it are then
+        // never handled)
+        let poison_at = want.iter().position(|w| w.1 == Kind::Poison && !w.2);
+        let ok = match poison_at {
+            Some(p) if seen.len() > p && seen.len() <= want.len() => seen[..] == want[..seen.len()],
+            _ => {
+                if on_boundary {
+                    seen == want
+                } else {
+                    seen.len() <= want.len() && seen[..] == want[..seen.len()]
+                }
+            }
+        };
         if !ok {
             v.push((format!("{prop}/service-did-not-see-each-call-exactly-once-in-order"), format!("conn{i}: service saw {seen:?}, client sent {want:?}")));
         }
@@ -1306,7 +1379,7 @@ pub fn reply_latency(prop: &str, scn: &Scenario, out: &WorldOut, stats: &mut BTr
     let bound = 3 * (scn.conns.len() + 1) + 6;
     for (k, l) in out.log.iter().enumerate() {
         let c = l.client as usize;
-        if l.frames_written.is_empty() || l.oneway || l.kind == Kind::Sub || c >= scn.conns.len() || scn.conns[c].faulty || scn.conns[c].fail_write_at.is_some() {
+        if l.frames_written.is_empty() || l.oneway || l.kind == Kind::Sub || l.kind == Kind::Poison || c >= scn.conns.len() || scn.conns[c].faulty || scn.conns[c].fail_write_at.is_some() {
             continue;
         }
         let Some(later) = out.log.get(k + bound) else { continue };
@@ -1365,6 +1438,8 @@ pub fn stream_latency(prop: &str, scn: &Scenario, out: &WorldOut, stats: &mut BT
         let mut frame_idx = 0u32;
         for call in &c.calls {
             match call.kind {
+                // (stream latency is not judged on connections with unanswerable calls: C08 only)
+                Kind::Poison => break,
                 Kind::Echo | Kind::Fail => {
                     if !call.oneway {
                         frame_idx += 1;
